@@ -134,8 +134,13 @@ def run_tlc(ctx, module_path, cfg_path, workers=8, timeout=600, env=None, simula
     t0 = time.time()
     ctx.tlc_cmds.append(" ".join(cmd[cmd.index("tlc2.TLC"):]))
     try:
-        p = subprocess.run(cmd, cwd=mdir, env=e, stdout=subprocess.PIPE, stderr=subprocess.STDOUT, text=True, timeout=timeout)
-        r.rc, r.out = p.returncode, p.stdout
+        for attempt in range(3):
+            p = subprocess.run(cmd, cwd=mdir, env=e, stdout=subprocess.PIPE, stderr=subprocess.STDOUT, text=True, timeout=timeout)
+            r.rc, r.out = p.returncode, p.stdout
+            if r.rc not in (143, 137, -15, -9):      # the JVM was killed from outside (not by TLC): run again
+                break
+            shutil.rmtree(meta, ignore_errors=True)
+            time.sleep(2 + 3 * attempt)
     except subprocess.TimeoutExpired as ex:
         r.kind = "timeout"
         r.out = (ex.stdout.decode() if isinstance(ex.stdout, bytes) else (ex.stdout or ""))
@@ -289,7 +294,9 @@ def record_trace(ctx, bdir, name, args, trace_path, timeout=900, env=None):
         open(ep, "w").write(err or "")
         ctx.log(f"harness {name} {args[0]} exited rc={rc}; ABORT event appended (stderr: {ep})")
         with open(trace_path, "a") as f:
-            f.write("\n" + json.dumps({"e": "ABORT", "rc": rc, "why": (err or "").strip().splitlines()[-1][:200] if (err or "").strip() else ""}) + "\n")
+            lines = (err or "").strip().splitlines()
+            why = next((x.strip() for x in lines if "Sanitizer" in x or "runtime error" in x or "TIMEOUT" in x), lines[-1] if lines else "")
+            f.write("\n" + json.dumps({"e": "ABORT", "rc": rc, "why": why[:240]}) + "\n")
     return rc
 
 
